@@ -256,6 +256,7 @@ def opTcpAccept (w : World) (h ls s : Nat) : World × String :=
 def tryWrite (w : World) (h : Nat) (x : WrH) (p : Hex) : World × String :=
   if hexLen p == 0 then (w, "ok 0") else
   if x.shutdown then (w, "err brokenpipe") else
+  if w.cfg.fixWriterReset && (findSock (w.host! h) x.loc x.rem).isNone then (w, "err brokenpipe") else
   if w.credits x.fc == 0 then (w.tag "nocredit", "err wouldblock") else
   let w := { w with fcs := setAt w.fcs x.fc (· - 1) }
   match findSock (w.host! h) x.loc x.rem with
